@@ -114,6 +114,62 @@ def montgomery_structured(limit=1200):
     return out[:limit] if limit else out
 
 
+_pairs_cache = {}
+
+
+def montgomery_presub(a, b):
+    """the value V = (a*b + m*l) / 2^256 (m = -a*b/l mod 2^256) that word-by-word Montgomery multiplication holds before
+    its final conditional subtraction of l: V = a*b/R mod l, or that plus l"""
+    R = 2**256
+    t = a * b
+    m = (-t * pow(L, -1, R)) % R
+    return (t + m * L) // R
+
+
+def montgomery_pairs(limit=400, seed=1):
+    """pairs (A, B) of raw Montgomery-domain limb values (< l) whose Montgomery product's *pre-subtraction* value V is a
+    structured number, in both regimes V < l (no final subtraction) and V >= l (final subtraction taken, V = t + l):
+    the inputs on which a dropped borrow / carry or a wrong select in the final reduction of the variable-by-variable
+    multiplication shows.  Obtained algebraically: choose the target t and A, solve B = t*R/A mod l, keep the pair if
+    the big-integer model of the word-by-word algorithm reaches the wanted regime (probability ~3 % for V >= l)."""
+    key = (limit, seed)
+    if key in _pairs_cache:
+        return _pairs_cache[key]
+    rng = random.Random(seed)
+    R = 2**256
+    c = L - 2**252
+    targets = []
+    # t such that t + l has a zero / all-ones word with a borrow or carry rippling through it
+    for j in (1, 2, 3, 2**20, 2**59):
+        for e in (1, 2, c - 1, c, 2**64, 2**64 + 1, 2**127):
+            targets.append((j * 2**192 - e) % L)
+            targets.append((j * 2**128 - e) % L)
+            targets.append((j * 2**64 - e) % L)
+    targets += [0, 1, L - 1, L - 2, 2**252 - 1, 2**252, 2**252 + 1, c, c - 1, c + 1, L - c, 2**128 - c, 2**192 - c, 2**64 - (c % 2**64)]
+    ss = structured_scalars()
+    targets += [ss[(i * 7) % len(ss)] for i in range(max(0, limit - len(targets)))]
+    out = []
+    for t in targets[:limit]:
+        t %= L
+        got_hi = got_lo = False
+        for tries in range(160):
+            # V >= a*b/R: the regime V = t < l needs a small product when t is small, the regime V = t + l a large one
+            A = (rng.randrange(1, L) if tries % 4 == 1 else rng.randrange(1, min(L, 4 * t + 2))) if tries % 2 else L - 1 - rng.randrange(2**200)
+            B = t * R % L * pow(A, -1, L) % L
+            V = montgomery_presub(A, B)
+            assert V % L == t
+            if V >= L and not got_hi:
+                got_hi = True
+                out.append((A, B))
+            elif V < L and not got_lo:
+                got_lo = True
+                out.append((A, B))
+            if got_hi and got_lo:
+                break
+    _pairs_cache[key] = out
+    return out
+
+
 def scalar_words(k):
     v = k % L * (2**256) % L
     return "w:" + ",".join(str((v >> (64 * i)) & (2**64 - 1)) for i in range(4))
